@@ -354,6 +354,9 @@ def variant_index(enum, variant):
     return ENUMS[enum].index(variant)
 
 
+UNIT_STRUCTS = {"RangeFull"}
+
+
 class Frame:
     def __init__(self, func):
         self.func = func
@@ -919,6 +922,13 @@ class Ctx:
         segs = strip_generics(name)
         if len(segs) >= 2 and segs[-2] in ENUMS and segs[-1] in ENUMS[segs[-2]]:
             return Agg(segs[-2], segs[-1], [])
+        mo = re.match(r"\{alloc\d+: &(?:mut )?([A-Za-z_][A-Za-z0-9_:]*)\}$", name)
+        if mo:
+            # reference to a static item (lazy_static unit struct, ...)
+            key = "static:" + mo.group(1)
+            if key not in self.const_cache:
+                self.const_cache[key] = new_ref(Agg(mo.group(1).split("::")[-1], None, []))
+            return self.const_cache[key]
         f = self.program.funcs.get(name)
         if f is None:
             # `const path::NAME` may be printed with a type suffix or trimmed path
@@ -932,6 +942,8 @@ class Ctx:
         m = self.ex.models.const(self, name)
         if m is not None:
             return m
+        if f is None and re.match(r"(?:[A-Za-z_][A-Za-z0-9_]*::)*[A-Z][A-Za-z0-9]*$", name) and name.split("::")[-1] in UNIT_STRUCTS:
+            return Agg(name.split("::")[-1], None, [])
         raise Unsupported("constant %r" % text)
 
     # -- rvalues -------------------------------------------------------------------------------
@@ -965,7 +977,7 @@ class Ctx:
         if k == "repeat":
             v = self.operand(fr, rv[1])
             n = rv[2]
-            mo = re.match(r"(?:const )?(\d+)_usize", n)
+            mo = re.match(r"(?:const )?(\d+)(?:_usize)?$", n)
             if not mo:
                 raise Unsupported("repeat count %r" % n)
             return Slice([clone_value(v) for _ in range(int(mo.group(1)))])
